@@ -138,6 +138,25 @@ def real_size_values(run, tier, rng):
                     run.violation({"kind": "stft_real_size_stream_differs", "rate": rate, "L": L, "S": S, "style": style,
                                    "kaldi": kaldi, "N": N, "chunks": chunks,
                                    "stream_shape": list(got.shape), "full_shape": list(full.shape)})
+        # frame_by_frame_calculation with its DEFAULT chunk size (1024), on signals a few chunks long, STFT and SI
+        sbank = filters.GaborFilterBank("mel", num_filts=3, sampling_rate=rate)
+        sstyle = "centered" if style == "centered" else "causal"
+        sms = float(Sms)
+        while True:  # C01's precondition for SI: the shift is shorter than the longest filter's one-sided support
+            Ssi = int(0.001 * sms * rate)
+            M_ = max(r - l for l, r in sbank.supports)
+            if (sstyle == "causal" and Ssi < max(r for l, r in sbank.supports)) or (sstyle == "centered" and Ssi < M_ - M_ // 2):
+                break
+            sms /= 2
+        for comp_ in (c, compute.SIFrameComputer(sbank, frame_shift_ms=sms, frame_style=sstyle)):
+            for N in (1023, 1024, 1025, 2048 + L // 2, 4096 + 7, 4096 + S + 3, 5000):
+                x = common.relayout(nprng.randn(N), common.LAYOUTS[N % len(common.LAYOUTS)])
+                full = comp_.compute_full(x)
+                got = compute.frame_by_frame_calculation(comp_, x)
+                run.evaluations += 1
+                if got.shape != full.shape or not np.allclose(got, full, rtol=1e-8, atol=1e-10):
+                    run.violation({"kind": "fbf_default_chunk_size_differs_from_full", "computer": type(comp_).__name__, "rate": rate, "L": L, "S": S,
+                                   "style": style, "kaldi": kaldi, "N": N, "fbf_shape": list(got.shape), "full_shape": list(full.shape)})
         run.sample({"real_size_config": [rate, Lms, Sms, style, kaldi], "Ns": Ns[:8]})
 
 
